@@ -1,9 +1,288 @@
+import RsMatterVerif.Model.BtpLink
 import Driver.Util
-/-! Driver for C18: not built yet. -/
-namespace Driver.C18
+/-!
+Driver for C18.  Replays the scheduler / injection operations of the harness on `Model/BtpLink`
+(two `End`s + two FIFO queues), compares every answer and the window fields with what the real
+`Btp` objects answered, and evaluates the specification of the property on the *implementation's*
+outputs:
 
-def run : IO UInt32 := do
-  IO.eprintln "C18: driver not built yet"
-  return 2
+* no operation may panic;
+* a data segment that violates the protocol (`Spec.mustReject`, evaluated on a ghost view that is
+  maintained from the wire bytes only) must be refused;
+* the messages fetched at an end are a prefix of the reassembly of the segments that end accepted
+  (`Spec.Reasm`), byte-identical — nothing corrupted, duplicated or reordered;
+* an end never has more unacknowledged segments in flight than the negotiated window;
+* when an acknowledgement is pending and the deadline has passed, `is_ack_due` answers yes and the
+  pump emits it (if the send window has room);
+* kind `l` (two well-behaved ends): no operation fails, and the messages fetched at one end are a
+  prefix of the messages accepted for sending at the other end.
+-/
+namespace Driver.C18
+open Btp
+
+def hexDigit (c : Char) : Nat :=
+  if '0' ≤ c ∧ c ≤ '9' then c.toNat - '0'.toNat
+  else if 'a' ≤ c ∧ c ≤ 'f' then c.toNat - 'a'.toNat + 10
+  else 0
+
+def unhex (s : String) : List Nat :=
+  if s = "-" then [] else
+  let rec go : List Char → List Nat → List Nat
+    | a :: b :: r, acc => go r ((hexDigit a * 16 + hexDigit b) :: acc)
+    | _, acc => acc.reverse
+  go s.toList []
+
+def hexNib (n : Nat) : Char := if n < 10 then Char.ofNat (48 + n) else Char.ofNat (87 + n)
+
+def hex (bs : List Nat) : String :=
+  if bs.isEmpty then "-" else
+  String.ofList (bs.foldr (fun b acc => hexNib (b / 16 % 16) :: hexNib (b % 16) :: acc) [])
+
+/-- ghost state of one end, maintained from the wire bytes and the implementation's verdicts only -/
+structure Ghost where
+  dead : Bool := false
+  hasWindow : Bool := false
+  view : Spec.View := { lastSeq := 255, window := 0, unackedRx := 0, lastSent := 255, outstanding := 0, remaining := 0 }
+  reasm : Spec.Reasm := {}
+  submitted : List (List Nat) := []
+  fetched : List (List Nat) := []
+  /-- caps used for the fetched messages (truncation is the caller's choice) -/
+  fetchedCaps : List Nat := []
+  lastRxAt : Nat := 0
+  initiator : Bool := false
+
+structure St where
+  link : Link := {}
+  ga : Ghost := {}
+  gb : Ghost := {}
+  wellBehaved : Bool := true
+  now : Nat := 0
+
+def St.ghost (st : St) : Side → Ghost
+  | .a => st.ga
+  | .b => st.gb
+
+def St.setGhost (st : St) (x : Side) (g : Ghost) : St :=
+  match x with
+  | .a => { st with ga := g }
+  | .b => { st with gb := g }
+
+def b2n (b : Bool) : Nat := if b then 1 else 0
+
+def stStr (e : End) : String :=
+  ",".intercalate ([e.s.mtu, e.s.windowSize, b2n e.s.handshakePending, b2n e.s.established,
+    e.s.send.level, e.s.send.lastSent, e.s.recv.level, e.s.recv.ackLevel, e.s.recv.ackSeq,
+    e.s.recv.remMsgLen, e.s.recv.msgCt, e.s.recv.buf.length, e.sdu.length, e.off].map toString)
+
+def parseSide (s : String) : Option Side :=
+  if s = "a" then some .a else if s = "b" then some .b else none
+
+def optMtu (n : Nat) : Option Nat := if n = 0 then none else some n
+
+/-- result part of an implementation output `<res> | <state>` -/
+def resPart (out : String) : String :=
+  match out.splitOn " | " with
+  | r :: _ => r.trimAscii.toString
+  | [] => out
+
+/-- prefix check with per-message truncation caps -/
+def prefixCapped : List (List Nat) → List Nat → List (List Nat) → Bool
+  | [], _, _ => true
+  | _ :: _, _, [] => false
+  | x :: xs, c :: cs, y :: ys => x == y.take c && prefixCapped xs cs ys
+  | x :: xs, [], y :: ys => x == y && prefixCapped xs [] ys
+
+/-- ghost update + specification check for a segment handed to end `x`; `implOk` = the implementation accepted it -/
+def onRx (g : Ghost) (seg : List Nat) (implOk : Bool) (now : Nat) : Ghost × Option String :=
+  match decodeHdr seg with
+  | .error _ => (g, none)     -- not even a header: the property demands only "no crash"
+  | .ok (h, payload) =>
+    if h.hs then
+      -- handshake segments: on acceptance the ghost learns the window
+      if implOk then
+        if g.initiator then
+          match decodeResp payload with
+          | .ok r =>
+            ({ g with hasWindow := true, reasm := {}, fetched := [], fetchedCaps := [],
+                      view := { lastSeq := 0, window := r.windowSize, unackedRx := 0, lastSent := 255,
+                                outstanding := 0, remaining := 0 } }, none)
+          | .error _ => (g, none)
+        else
+          -- responder: the negotiated window is learnt from the response it emits (`onTx`); until
+          -- then the requested window is an upper bound (the oracle stays on the lenient side)
+          let rw := match decodeReq payload with | .ok q => q.windowSize | .error _ => 0
+          ({ g with hasWindow := false, reasm := {}, fetched := [], fetchedCaps := [],
+                    view := { lastSeq := 255, window := rw, unackedRx := 0, lastSent := 255,
+                              outstanding := 0, remaining := 0 } }, none)
+      else (g, none)
+    else
+      let must := Spec.mustReject g.view h payload
+      if implOk then
+        let why := if must then some s!"accepted a protocol-violating segment (seq={h.seqNum} ack={h.getAck} beg={h.beg} fin={h.fin} len={h.msgLen} payload={payload.length} view={repr g.view})" else none
+        let v := g.view
+        let remBase := if h.beg then h.msgLen else v.remaining
+        let v' : Spec.View := { v with
+          lastSeq := h.seqNum, unackedRx := v.unackedRx + 1,
+          outstanding := if h.ack then wrapSub v.lastSent h.ackNum else v.outstanding,
+          remaining := if h.fin then 0 else remBase - payload.length }
+        ({ g with view := v', reasm := g.reasm.feed h payload, lastRxAt := now }, why)
+      else (g, none)
+
+/-- ghost update + specification check for a segment emitted by end `x` -/
+def onTx (g : Ghost) (seg : List Nat) : Ghost × Option String :=
+  match decodeHdr seg with
+  | .error _ => (g, some "emitted an undecodable segment")
+  | .ok (h, payload) =>
+    if h.hs then
+      if g.initiator then (g, none)
+      else
+        match decodeResp payload with
+        | .ok r =>
+          ({ g with hasWindow := true,
+                    view := { g.view with window := r.windowSize, lastSent := 0, outstanding := 1 } }, none)
+        | .error _ => (g, some "emitted a malformed handshake response")
+    else
+      let v := g.view
+      let v' : Spec.View := { v with lastSent := h.seqNum, outstanding := v.outstanding + 1,
+                                      unackedRx := if h.ack then 0 else v.unackedRx }
+      let why :=
+        if h.seqNum ≠ (v.lastSent + 1) % 256 then some s!"emitted sequence number {h.seqNum} after {v.lastSent}"
+        else if v'.outstanding > v.window then some s!"{v'.outstanding} unacknowledged segments in flight, window {v.window}"
+        else none
+      ({ g with view := v' }, why)
+
+/-- an acknowledgement is pending (something accepted since our last acknowledgement, and no
+complete message waiting to be fetched) and its deadline has passed -/
+def ackOverdue (g : Ghost) (now : Nat) : Bool :=
+  g.hasWindow && g.view.unackedRx > 0 && g.fetched.length == g.reasm.done.length
+    && g.lastRxAt + ackTimeoutSecs ≤ now
+
+def failStr : Fail → String
+  | .panic _ => "panic"
+  | f => s!"err {f.name}"
+
+def verdict (ora : Option String) (model impl : String) : String :=
+  match ora with
+  | some why => s!"ORA {why}"
+  | none => if model = impl then "ok" else s!"DIS {model}"
+
+def step (st : St) (line : String) : St × String :=
+  let (op, out) := splitArrow line
+  match words op with
+  | "case" :: _ :: kind :: ia :: ib :: ga :: gb :: ra :: rb :: _ =>
+    let n (s : String) := s.toNat?.getD 0
+    let ea : End := { s := Session.fresh (n ia = 1) (n ra = 1), gattMtu := optMtu (n ga) }
+    let eb : End := { s := Session.fresh (n ib = 1) (n rb = 1), gattMtu := optMtu (n gb) }
+    ({ link := { a := ea, b := eb }, ga := { initiator := n ia = 1 }, gb := { initiator := n ib = 1 },
+       wellBehaved := kind = "l", now := 0 }, "case")
+  | ["tick", ns] =>
+    let n := ns.toNat?.getD 0
+    ({ st with link := { st.link with now := st.link.now + n }, now := st.now + n }, if out = "ok" then "ok" else "DIS ok")
+  | ["hsw", xs, ws] =>
+    match parseSide xs with
+    | none => (st, "BAD side")
+    | some x =>
+      match st.link.inq x with
+      | [0x65, 0x6c, v0, v1, v2, v3, m0, m1, _] :: rest =>
+        ({ st with link := st.link.setInq x ([0x65, 0x6c, v0, v1, v2, v3, m0, m1, ws.toNat?.getD 1 % 256] :: rest) },
+         if out = "ok" then "ok" else "DIS ok")
+      | _ => (st, if out = "skip" then "ok" else "DIS skip")
+  | cmd :: xs :: args =>
+    match parseSide xs with
+    | none => (st, "BAD side")
+    | some x =>
+      let g := st.ghost x
+      if g.dead then (st, if out = "dead" then "ok" else "DIS dead") else
+      let res := resPart out
+      let e := st.link.get x
+      let implPanic := res = "panic"
+      let markDead (st : St) : St := if implPanic then st.setGhost x { st.ghost x with dead := true } else st
+      let wb (why : Option String) (isErr : Bool) : Option String :=
+        match why with
+        | some w => some w
+        | none =>
+          if implPanic then some "panic"
+          else if st.wellBehaved && isErr then some s!"operation failed between two well-behaved ends: {res}"
+          else none
+      match cmd, args with
+      | "send", [hx] =>
+        let m := unhex hx
+        let (l', mo) : Link × String :=
+          match e.send m with
+          | .error f => (st.link, s!"{failStr f} | {stStr e}")
+          | .ok (e', ok) => (st.link.set x e', s!"{if ok then "ok" else "busy"} | {stStr e'}")
+        let g' := if res = "ok" then { g with submitted := g.submitted ++ [m] } else g
+        let ora := if implPanic then some "panic" else none
+        (markDead ({ st with link := l' }.setGhost x g'), verdict ora mo out)
+      | "poll", [] =>
+        let (l', mo) : Link × String :=
+          match st.link.step (.poll x) with
+          | .error f => (st.link, s!"{failStr f} | {stStr e}")
+          | .ok (l', .tx seg) => (l', s!"tx {hex seg} | {stStr (l'.get x)}")
+          | .ok (l', _) => (l', s!"none | {stStr (l'.get x)}")
+        -- the queue content follows the implementation (it is what travels)
+        let implSeg : Option (List Nat) := match words res with | ["tx", hx] => some (unhex hx) | _ => none
+        let l'' := match implSeg with
+          | some seg => l'.setInq x.other (st.link.inq x.other ++ [seg])
+          | none => l'.setInq x.other (st.link.inq x.other)
+        let (g', why) : Ghost × Option String := match implSeg with
+          | some seg => onTx g seg
+          | none =>
+            if res = "none" && ackOverdue g st.now && g.view.outstanding < g.view.window then
+              (g, some "an acknowledgement is overdue and the send window has room, but nothing was sent")
+            else (g, none)
+        let ora := wb why (res.startsWith "err")
+        (markDead ({ st with link := l'' }.setGhost x g'), verdict ora mo out)
+      | "dlv", [] =>
+        match st.link.inq x with
+        | [] => (st, if res = "empty" then "ok" else "DIS empty")
+        | seg :: rest =>
+          let (l', mo) : Link × String :=
+            match e.processIncoming seg st.link.now with
+            | .error f => (st.link.setInq x rest, s!"{failStr f} | {stStr e}")
+            | .ok e' => ((st.link.set x e').setInq x rest, s!"ok | {stStr e'}")
+          let (g', why) := onRx g seg (res = "ok") st.now
+          let ora := wb why (res.startsWith "err")
+          (markDead ({ st with link := l' }.setGhost x g'), verdict ora mo out)
+      | "inj", [hx] =>
+        let seg := unhex hx
+        let (l', mo) : Link × String :=
+          match e.processIncoming seg st.link.now with
+          | .error f => (st.link, s!"{failStr f} | {stStr e}")
+          | .ok e' => (st.link.set x e', s!"ok | {stStr e'}")
+        if st.wellBehaved then (st, "BAD injection into a well-behaved link") else
+        let (g', why) := onRx g seg (res = "ok") st.now
+        let ora := wb why false
+        (markDead ({ st with link := l' }.setGhost x g'), verdict ora mo out)
+      | "fetch", [cs] =>
+        let cap := cs.toNat?.getD 0
+        let (l', mo) : Link × String :=
+          match e.recv cap with
+          | .error f => (st.link, s!"{failStr f} | {stStr e}")
+          | .ok (e', some m) => (st.link.set x e', s!"msg {hex m} | {stStr e'}")
+          | .ok (e', none) => (st.link.set x e', s!"none | {stStr e'}")
+        let (g', why) : Ghost × Option String :=
+          match words res with
+          | ["msg", hx] =>
+            let m := unhex hx
+            let g' := { g with fetched := g.fetched ++ [m], fetchedCaps := g.fetchedCaps ++ [cap] }
+            let peer := st.ghost x.other
+            if !prefixCapped g'.fetched g'.fetchedCaps g'.reasm.done then
+              (g', some s!"fetched message #{g'.fetched.length} is not the reassembly of the accepted segments (got {m.length} bytes)")
+            else if st.wellBehaved && !Spec.isPrefix g'.fetched peer.submitted then
+              (g', some s!"fetched message #{g'.fetched.length} differs from the message submitted at the other end")
+            else (g', none)
+          | _ => (g, none)
+        let ora := wb why (res.startsWith "err")
+        (markDead ({ st with link := l' }.setGhost x g'), verdict ora mo out)
+      | "due", [] =>
+        let d := e.s.isAckDue st.link.now ackTimeoutSecs
+        let mo := if d then "1" else "0"
+        let why := if ackOverdue g st.now && res = "0" then some "acknowledgement pending past the deadline but is_ack_due = false" else none
+        (st, verdict (wb why false) mo out)
+      | _, _ => (st, "BAD op")
+  | _ => (st, "BAD line")
+
+def run : IO UInt32 := Driver.runLoop ({} : St) step
 
 end Driver.C18
